@@ -108,12 +108,16 @@ structure RunShape where
   recovers : Bool       -- a deferred `recover()` in `Run` turns a panic inside the native action into an error return
   evmAfterWrite : Bool  -- on some path through the closure an EVM call on the same StateDB follows a keeper write
   dropsActionError : Bool  -- the error `ExecuteNativeAction` returns is overwritten / never tested: `Run` goes on and reports success
+  /-- round 4: a keeper call on `stateDB.Context()` in the ERROR branch after `ExecuteNativeAction` (the snapshot has been
+  put back, the write that follows is not journaled and the failing frame holds no native journal entry) -/
+  outerOnError : Bool := false
   deriving DecidableEq, Repr
 
 /-- the shapes for which a precompile call is all-or-nothing (`Props/C09.lean`: sufficient, and each condition necessary).
 A keeper write AFTER the native action is not in the list: it sits above the action's journal entry, whose snapshot
 restores the store as it was before the action — the order of the two statements is what matters. -/
-def RunShape.clean (sh : RunShape) : Bool := !sh.outerBefore && !sh.recovers && !sh.evmAfterWrite && !sh.dropsActionError
+def RunShape.clean (sh : RunShape) : Bool :=
+  !sh.outerBefore && !sh.recovers && !sh.evmAfterWrite && !sh.dropsActionError && !sh.outerOnError
 def RunShape.tidy : RunShape :=
   { outerBefore := false, outerAfter := false, recovers := false, evmAfterWrite := false, dropsActionError := false }
 
@@ -132,6 +136,10 @@ structure CallHdr (N : Type) where
   swallow : Bool         -- on failure: continue (true) or bubble up with REVERT (false)
   pOk : Nat              -- caller-side cost after a successful call
   pFail : Nat            -- caller-side cost after a failed call (up to and including the REVERT when bubbling)
+  /-- CALLCODE with a value (round 4): `EVM.CallCode` consults `CanTransfer` for the executing account but moves NOTHING
+  (its statement list has the balance check and no `Transfer`, `Gen.C09Dep.progCallCode`), and `opCallCode` has no
+  write-protection test — so such a call is a header with `xfer = none` and `checkOnly = true` -/
+  checkOnly : Bool := false
 
 inductive Prog (N : Type)
   | sstore (c k v : Nat)
@@ -156,8 +164,8 @@ def St.enter (s : St N) (h : CallHdr N) : St N :=
   | some f => s.transfer f
   | none => s
 
-/-- `evm.Call` refuses to start: value attached that the caller cannot pay -/
-def CallHdr.unfunded (h : CallHdr N) (s : N) : Bool := h.xfer.isSome && !h.funded s
+/-- `evm.Call` / `evm.CallCode` refuses to start: value attached that the caller cannot pay -/
+def CallHdr.unfunded (h : CallHdr N) (s : N) : Bool := (h.xfer.isSome || h.checkOnly) && !h.funded s
 
 /-- the evaluator of a callee program (`exec fuel`), abstracted so that `runPre` is not part of the recursion -/
 abbrev Eval (N : Type) := Bool → Nat → List (Prog N) → St N → Outcome × St N × Nat
@@ -204,7 +212,7 @@ def runPre (ev : Eval N) (roCtx roCall : Bool) (gas req : Nat) (sh : RunShape) (
   | (.err, s1) =>
     -- `ExecuteNativeAction` has put the snapshot back; a `Run` that loses the error carries on as after a success
     if sh.dropsActionError then (.ok, { s1 with native := s0.native }, gas - req)
-    else (.fail, { s1 with native := s0.native }, 0)
+    else (.fail, (if sh.outerOnError then ({ s1 with native := s0.native } : St N).poke out else { s1 with native := s0.native }), 0)
   | (.panic, s1) => if sh.recovers then (.fail, s1, 0) else (.abort, s1, 0)
 
 /-- what `evm.Call*` and the caller's code do with the callee's result: `inl` = caller continues, `inr` = caller halts -/
